@@ -123,14 +123,19 @@ func runC21() {
 				spec = append(spec, fmt.Sprintf("%d:%d", sh, resume[sh]))
 			}
 		}
-		os.Setenv("C21_RESUME", strings.Join(spec, ","))
-		os.Setenv("C21_FATAL", strings.Join(fatalClasses, ";"))
+		if os.Getenv("VERIF_SHARD") == "" { // (a worker re-executes this function up to Sharded and must keep what the parent gave it)
+			os.Setenv("C21_RESUME", strings.Join(spec, ","))
+			os.Setenv("C21_FATAL", strings.Join(fatalClasses, ";"))
+		}
 		deaths := evid.Sharded(r, 4<<30, func(s evid.ShardInfo, w *evid.Run) { c21worker(s, w, cases) })
 		died := map[int]bool{}
 		if len(deaths) > 0 {
-			fmt.Fprintf(os.Stderr, "C21: round %d: %d worker processes died; resuming their shards\n", round, len(deaths))
+			fmt.Fprintf(os.Stderr, "C21: round %d: %d worker processes died (first at case %s); resuming their shards\n", round, len(deaths), deaths[0].LastCase)
 		}
 		for _, d := range deaths {
+			if os.Getenv("C21_DEBUG") != "" {
+				fmt.Fprintf(os.Stderr, "C21:   shard %d died at %s (resume spec %s)\n", d.Shard, d.LastCase, os.Getenv("C21_RESUME"))
+			}
 			died[d.Shard] = true
 			idx, err := strconv.Atoi(strings.SplitN(d.LastCase, "|", 2)[0])
 			if err != nil || idx < 0 || idx >= len(cases) {
@@ -142,7 +147,9 @@ func runC21() {
 			}
 			c := cases[idx]
 			pt := panicText(d.Stderr)
-			fatalClasses = append(fatalClasses, fatalClass(c))
+			if fc := fatalClass(c); !strings.Contains(";"+strings.Join(fatalClasses, ";")+";", ";"+fc+";") {
+				fatalClasses = append(fatalClasses, fc)
+			}
 			r.Eval(c.key())
 			r.Outcome("process-died")
 			b, _ := json.Marshal(c.Script)
